@@ -1058,6 +1058,9 @@ fn oracle_case(case: &Case, obs: &[&str], ids: &[&str], st: &mut OracleStats, ca
                             && matches!(want, Outcome::Val(_) | Outcome::ValOrPanicCycle(_))
                             && fb_seen_in_earlier_rev
                             && !case.prog.nodes.iter().any(|n| n.0 == Kind::Fb)
+                            // kf2 is about PARTICIPANTS of multi-node cycles; a program whose only
+                            // cycles are self-loops has none
+                            && !selfloop_only(&case.prog)
                             && {
                                 // some node in the cone of the request (the request included) was a
                                 // cycle member when it last ran and has only been re-validated since
